@@ -778,15 +778,18 @@ func (s *session) checkBeginString(msg *Message) MessageRejectError {
 	return nil
 }
 
+// drainMessageIn empties the inbound channel of the connection that is being given up, so that its reader is
+// not left blocked. The messages are discarded, not processed: the application has been told about the
+// logout and nothing can be answered on this connection any more. Their numbers are not consumed, so they
+// are asked for again through the normal gap recovery.
 func (s *session) drainMessageIn() {
-	s.log.OnEventf("Draining %d messages from inbound channel...", len(s.messageIn))
+	s.log.OnEventf("Discarding %d messages from inbound channel...", len(s.messageIn))
 	for {
 		select {
-		case fixInc, ok := <-s.messageIn:
+		case _, ok := <-s.messageIn:
 			if !ok {
 				return
 			}
-			s.Incoming(s, fixInc)
 		default:
 			return
 		}
